@@ -46,8 +46,13 @@ def cases(tier, seed):
     b = space.family_bind("quick", with_sensors=True)
     defs += [space.assumed(b[13]), space.assumed(b[26]), space.assumed(b[22], ["x", "w"]), space.assumed(b[17], ["y", "k"], "finite"),
              space.assumed(b[27])]
+    defs += [space.with_unused(b[13]), space.with_unused(b[17])]  # a declared but unused control / calibration value
     # block-size sweep: Jacobian blocks of 1..64 entries, rows with more temporaries than entries
     defs += space.family_sizes(tier)
+    # shared sub-expressions nested inside other shared sub-expressions, all depending on the differentiation variables (a
+    # Jacobian assembled through the chain rule over shared terms must follow the dependence through every level)
+    defs += [with_sensors(d) for d in space.family_cse("quick" if tier == "quick" else "thorough")
+             if any(t in d["name"] for t in ("nest3", "chain", "manytemps13", "dtshare", "temp-is-output"))]
     for d in defs:
         nsym = len(d["state"]) + len(d["control"])
         yield {"def": d, "per_symbol": per if nsym <= 4 else 2, "seed": seed, "dts": [0.125, -0.25]}
